@@ -34,7 +34,7 @@
   positions returned by lookup               find_sound, find_eq_idxOf (small names); find_miss_big_suffix (F16-BIGSUFFIX)
   counts                                     deleteNth_hosts (.count), uniq_count, Good invariants
   hosts seen by EVERY live iterator          edit_refines_multi_new/_free/_reset/_next/_remove/_shift/_pop/_push/
-                                             _delete_nth/_delete_host/_find/_uniq;
+                                             _push_text/_delete_nth/_delete_host/_find/_uniq/_sort_reset;
                                              one iterator: edit_refines_* (also remove, uniq, push text)
   duplicates removed, none lost              uniq_names, edit_refines_uniq (IF duplicate-free); uniq_keeps_duplicate (F16-UNIQ)
 
@@ -69,6 +69,7 @@ import PdshVerif.Hostlist.EditMultiUniq
 import PdshVerif.Hostlist.EditMultiRemove2
 import PdshVerif.Hostlist.EditPushEnd
 import PdshVerif.Hostlist.EditSortRefine
+import PdshVerif.Hostlist.EditMultiText
 
 namespace PdshVerif.C16
 open PdshVerif.Hostlist PdshVerif.Gen
@@ -396,6 +397,19 @@ theorem edit_refines_multi_remove (cfg : Cfg) (hfs : cfg.fixIterSuffix = true) (
     (k : Nat) (hk : k ∈ e.its.map (·.1)) (hfresh : fr k = true) :
     ∃ p' e', EditSpec.itRemove p k = some p' ∧ itRemove cfg e k = .ok e' ∧ RefM cfg e' p' (fun _ => false) :=
   remove_refinesM cfg hfs hD19 hID e p fr h k hk hfresh
+
+/-- PUSH, operation TEXT level, any number of live iterators (none at the end): `hostlist_push(hl, "expr")`
+    on the text of a well-formed expression answers the size of the mathematical expansion `expand₁`, the
+    list grows by exactly these names and every iterator will reach them -/
+theorem edit_refines_multi_push_text (cfg : Cfg) (hfs : cfg.fixIterSuffix = true) (e : EL) (p : EditSpec.PL)
+    (fr : Nat → Bool) (h : RefM cfg e p fr) (hlt : ∀ b ∈ p.cur, b.2 < p.names.length)
+    (lead : Str) (items : List (Spec.Word × Str))
+    (hl : lead.all Spec.sepChar = true) (hok : Spec.sepsOK items = true)
+    (hw : ∀ q ∈ items, q.1.WF = true) (hd : ∀ q ∈ items, wordDom cfg q.1) :
+    ∃ e', pushE cfg e (Spec.render lead items) =
+        .ok (((Spec.expand₁ (items.map (·.1))).length : Int), .none, e') ∧
+      RefM cfg e' { p with names := p.names ++ Spec.expand₁ (items.map (·.1)) } (fun _ => false) :=
+  push_text_refinesM cfg hfs e p fr h hlt lead items hl hok hw hd
 
 /-- the empty list without iterators is in the relation (so is everything the operations above reach) -/
 theorem edit_refines_multi_init (cfg : Cfg) : RefM cfg EL.new EditSpec.PL.new (fun _ => false) := by
